@@ -13,7 +13,7 @@ namespace fs = std::filesystem;
 static rlim_t limit(rlim_t v) { struct rlimit rl; getrlimit(RLIMIT_FSIZE, &rl); rlim_t old = rl.rlim_cur; rl.rlim_cur = v; setrlimit(RLIMIT_FSIZE, &rl); return old; }
 int main(int argc, char **argv) {
   (void)argc; auto in = replay_io::load(argv[1]);
-  std::string which = in.count("SCENARIO") ? in["SCENARIO"] : "all";
+  std::string which = in.count("SCENARIO") ? in["SCENARIO"] : "K2";      // K10 only on request (observation, not part of the registered check)
   fs::path dir = fs::temp_directory_path() / ("iora_replay_json_save_" + std::to_string(getpid()));
   fs::remove_all(dir); fs::create_directories(dir);
   signal(SIGXFSZ, SIG_IGN);
